@@ -45,7 +45,12 @@ func (Engine) Generate(prop, tier string, run int, seed uint64) *kernel.Scenario
 	if prop != "C20" {
 		return nil
 	}
-	return genC20(kernel.NewRand(seed))
+	sc := genC20(kernel.NewRand(seed))
+	if kernel.NewRand(kernel.Derive(seed, "subscription-epilogue")).Bool(0.5) {
+		// after the calls: subscriptions, and a ledger registered again
+		sc.Config["sub_phase"] = 1
+	}
+	return sc
 }
 
 func (Engine) Execute(t *testing.T, sc *kernel.Scenario, trace bool) *kernel.Result {
